@@ -8,6 +8,9 @@ from pydcop.utils.expressionfunction import ExpressionFunction
 VALS = {"x": ["a", "b"], "y": [0, 1], "z": [2, 5, 9], "w": ["q", "p"]}
 
 
+_EXT = {}
+
+
 def nested(sp, rel, order, prefix=None):
     """table of rel as nested dict literal source, keyed by domain values in the given variable order"""
     prefix = prefix or {}
@@ -36,6 +39,20 @@ def build(sp, b, n):
         if n % 2:
             return R.UnaryFunctionRelation("u", sp.vars[sc[0]], ExpressionFunction("%r[%s]" % (table, sc[0])))
         return R.UnaryFunctionRelation("u", sp.vars[sc[0]], lambda v, t=table: t[v])
+    if kind == "expr" and n % 4 == 2:
+        # an expression calling a function of an external source file (constraint_from_external_definition, as a YAML 'source'
+        # entry gives): the expression TEXT is the same for every case with this parameter order, the files differ
+        import tempfile, os
+        if "dir" not in _EXT:
+            import atexit, shutil
+            _EXT["dir"] = tempfile.mkdtemp(prefix="pydcop_verif_c11_")
+            atexit.register(shutil.rmtree, _EXT["dir"], True)
+        d = _EXT["dir"]
+        path = os.path.join(d, "src_%d.py" % n)
+        with open(path, "w") as fh:
+            fh.write("T = %s\n\ndef h(%s):\n    return T%s\n" % (nested(sp, rel, to), ", ".join(to), "".join("[%s]" % v for v in to)))
+        allv = [sp.vars[v] for v in sc] + [sp.vars[v] for v in sorted(sp.vars) if v not in sc]
+        return R.constraint_from_external_definition("e", path, "source.h(%s)" % ", ".join(to), allv)
     if kind == "expr":
         expr = nested(sp, rel, to) + "".join("[%s]" % v for v in to)
         allv = [sp.vars[v] for v in sc] + [sp.vars[v] for v in sorted(sp.vars) if v not in sc]
